@@ -43,7 +43,10 @@ type Request struct {
 	w          requestBodyWriter
 	body       *bytebufferpool.ByteBuffer
 
-	multipartForm         *multipart.Form
+	multipartForm *multipart.Form
+	// multipartFormSize is the size of the body multipartForm was parsed
+	// from (0 when it is not known).
+	multipartFormSize     int
 	multipartFormBoundary string
 
 	postArgs   Args
@@ -1147,6 +1150,11 @@ func (req *Request) MultipartForm() (*multipart.Form, error) {
 // is processed.
 func (req *Request) MultipartFormWithLimit(maxBodySize int) (*multipart.Form, error) {
 	if req.multipartForm != nil {
+		// Parsed already - by the server before the handler ran, or by an
+		// earlier call with another limit. The limit applies all the same.
+		if maxBodySize > 0 && req.multipartFormSize > maxBodySize {
+			return nil, fmt.Errorf("cannot read multipart/form-data body: %w", ErrBodyTooLarge)
+		}
 		return req.multipartForm, nil
 	}
 
@@ -1188,6 +1196,9 @@ func (req *Request) MultipartFormWithLimit(maxBodySize int) (*multipart.Form, er
 			req.RemoveMultipartFormFiles()
 			return nil, fmt.Errorf("cannot read multipart/form-data body: %w", ErrBodyTooLarge)
 		}
+		if lr != nil {
+			req.multipartFormSize = int(int64(maxBodySize) + 1 - lr.N)
+		}
 	} else {
 		body := req.bodyBytes()
 		if bytes.Equal(ce, strGzip) {
@@ -1205,6 +1216,7 @@ func (req *Request) MultipartFormWithLimit(maxBodySize int) (*multipart.Form, er
 		if err != nil {
 			return nil, err
 		}
+		req.multipartFormSize = len(body)
 	}
 
 	return req.multipartForm, nil
@@ -1325,6 +1337,7 @@ func (req *Request) RemoveMultipartFormFiles() {
 		req.multipartForm.RemoveAll() //nolint:errcheck
 		req.multipartForm = nil
 	}
+	req.multipartFormSize = 0
 	req.multipartFormBoundary = ""
 }
 
@@ -1477,6 +1490,8 @@ func (req *Request) ContinueReadBody(r *bufio.Reader, maxBodySize int, preParseM
 				req.multipartForm, err = readMultipartForm(r, req.multipartFormBoundary, contentLength, defaultMaxInMemoryFileSize)
 				if err != nil {
 					req.Reset()
+				} else {
+					req.multipartFormSize = contentLength
 				}
 				return err
 			}
@@ -1562,6 +1577,8 @@ func (req *Request) ContinueReadBodyStream(r *bufio.Reader, maxBodySize int, pre
 				req.multipartForm, err = readMultipartForm(r, req.multipartFormBoundary, contentLength, defaultMaxInMemoryFileSize)
 				if err != nil {
 					req.Reset()
+				} else {
+					req.multipartFormSize = contentLength
 				}
 				return err
 			}
